@@ -46,6 +46,13 @@ var c18Skip = map[string]string{
 	"exec":   "runs a program",
 }
 
+// Tuples deliberately not evaluated (code 'K'): function -> argument position -> representative names.
+// leftpad/rightpad(x, 2^63-1, pad) would build a string of that length (a resource bound of the walk, not a finding).
+var c18SkipTuples = map[string]map[int]map[string]bool{
+	"leftpad":  {1: {"imax": true}},
+	"rightpad": {1: {"imax": true}},
+}
+
 const c18UDFs = `
 func verif_f1(a) { return true }
 func verif_f2(a, b) { return 1 }
@@ -288,9 +295,19 @@ func cmdBifWorker(args []string, in *bufio.Scanner, out *bufio.Writer) {
 		for t := t0; t < total; t++ {
 			argv := make([]*mlrval.Mlrval, s.arity)
 			x := t
+			excluded := false
 			for k := s.arity - 1; k >= 0; k-- {
 				argv[k] = reps[x%n].mk(env)
+				if c18SkipTuples[b.Name][k][reps[x%n].name] {
+					excluded = true
+				}
 				x /= n
+			}
+			if excluded {
+				buf = append(buf, 'K')
+				done++
+				atomic.StoreInt64(&progress, int64(g+t))
+				continue
 			}
 			if done < careful {
 				flush()
